@@ -41,6 +41,8 @@ type Frame struct {
 	specVars    map[string]SVal // extra identifiers visible to contract expressions of this frame
 	autoInv     []Clause // standing invariants of the parameters, carried through every loop of the top function
 	relational  bool     // C03: calls through function values are deterministic functions of (function, arguments); stated per site
+	cfgRPO      []*ssa.BasicBlock
+	cfgBack     map[[2]int]bool
 	loopRun     *loopRun // C03: execute one iteration of a map-range loop from a given state
 	presiteName string // site label of this activation's assumed preconditions (skolem lookup)
 	visited  map[*ssa.Range]*Term // ghost visited set per map range at loop head
@@ -253,6 +255,10 @@ func describe(v ssa.Value) string {
 // ---- CFG analysis --------------------------------------------------------------------------------
 
 func (f *Frame) analyzeLoops() (rpo []*ssa.BasicBlock, isBack map[[2]int]bool) {
+	if f.loops != nil && f.cfgRPO != nil {
+		return f.cfgRPO, f.cfgBack
+	}
+	defer func() { f.cfgRPO, f.cfgBack = rpo, isBack }()
 	fn := f.fn
 	isBack = map[[2]int]bool{}
 	f.loops = map[*ssa.BasicBlock]*loopInfo{}
@@ -348,7 +354,11 @@ func (f *Frame) run(st *State, reach *Term) (*State, *Term, []Val) {
 		} else {
 			cur, r = f.mergeEdges(b, edges)
 			if li := f.loops[b]; li != nil {
-				cur = f.enterLoop(li, cur, r, edges)
+				if ust, ok := f.tryUnroll(li, cur, r); ok {
+					cur = ust
+				} else {
+					cur = f.enterLoop(li, cur, r, edges)
+				}
 			}
 		}
 		// instructions
